@@ -8,7 +8,7 @@
    harness checks that on the implementation. *)
 From SA Require Proofs.QuantileFacts.
 From SA Require Import Model.Threshold Model.Symmetry Model.Eer Proofs.SentinelFacts Proofs.ExtremeFacts
-  Proofs.InvIncrFacts Proofs.EquivarianceFacts Proofs.EerFacts.
+  Proofs.InvIncrFacts Proofs.EquivarianceFacts Proofs.EerFacts Proofs.TrapzFacts.
 Open Scope Q_scope.
 
 (* ---------- the bisection depends on f only through its sign ---------- *)
@@ -52,30 +52,31 @@ Section AffineFull.
   Variable succ pred : Q -> Q.
   Variables a b : Q.
   Notation f := (fun x => a * x + b).
-  Hypothesis succ_f : forall x, succ (f x) == f (succ x).
-  Hypothesis pred_f : forall x, pred (f x) == f (pred x).
+  (* f commutes with nextafter on the values of a list *)
+  Definition commutes_on (l : list Q) : Prop :=
+    forall x, In x l -> succ (f x) == f (succ x) /\ pred (f x) == f (pred x).
 
   (* _invert_increasing_function: every target, every method, both continuity flags *)
-  Theorem inv_affine_full l u lc m : (1 <= len l)%Z ->
+  Theorem inv_affine_full l u lc m : (1 <= len l)%Z -> commutes_on l ->
     inv_incr succ pred (map f l) u lc m == f (inv_incr succ pred l u lc m).
   Proof.
-    intro H. unfold inv_incr. rewrite (len_map_f a b). cbv zeta.
+    intros H Hc. unfold inv_incr. rewrite (len_map_f a b). cbv zeta.
     set (n := len l) in *.
     set (tr := if negb lc then u - 1 / inject_Z n else u).
     set (li := Z.max (Z.min (Qfloor (tr * inject_Z n)) (n - 1)) 0).
     set (ri := Z.max (Z.min (Qceiling (tr * inject_Z n)) (n - 1)) 0).
-    rewrite !(nthZ_map a b) by (subst li ri; fold n; lia).
-    destruct (Qleb 1 u); [apply succ_f|].
-    destruct (Qleb tr 0); [apply pred_f|].
+    rewrite !(EquivarianceFacts.nthZ_map a b) by (subst li ri; fold n; lia).
+    destruct (Qleb 1 u); [apply Hc, TrapzFacts.nthZ_in; fold n; lia|].
+    destruct (Qleb tr 0); [apply Hc, TrapzFacts.nthZ_in; fold n; lia|].
     destruct m; ring.
   Qed.
 
   (* _threshold_at_ratio *)
   Theorem tar_affine_full s s' l u inc rc m :
-    score_class s' = score_class s -> equal_class s' = equal_class s -> (1 <= len l)%Z ->
+    score_class s' = score_class s -> equal_class s' = equal_class s -> (1 <= len l)%Z -> commutes_on l ->
     threshold_at_ratio succ pred s' (map f l) u inc rc m == f (threshold_at_ratio succ pred s l u inc rc m).
   Proof.
-    intros Hsc Hec Hn. rewrite !tar_unfold.
+    intros Hsc Hec Hn Hc. rewrite !tar_unfold.
     assert (T : tar_target s' inc u = tar_target s inc u) by (unfold tar_target; now rewrite Hsc).
     assert (L : tar_lc s' rc = tar_lc s rc) by (unfold tar_lc; now rewrite Hsc, Hec).
     assert (M : tar_method s' inc m = tar_method s inc m) by (unfold tar_method; now rewrite Hsc).
@@ -90,6 +91,16 @@ Section AffineFull.
   Hypothesis Hen : easy_neg s' = easy_neg s.
   Hypothesis Hsc : score_class s' = score_class s.
   Hypothesis Hec : equal_class s' = equal_class s.
+  Hypothesis Hcomm : commutes_on (pos s ++ neg s).
+  Lemma comm_pos : commutes_on (pos s).
+  Proof. intros x Hx. apply Hcomm, in_or_app. now left. Qed.
+  Lemma comm_neg : commutes_on (neg s).
+  Proof. intros x Hx. apply Hcomm, in_or_app. now right. Qed.
+  Lemma comm_pool : commutes_on (isort (neg s ++ pos s)).
+  Proof.
+    intros x Hx. apply Hcomm. apply (Permutation_in x (Permutation_sym (isort_perm (neg s ++ pos s)))) in Hx.
+    apply in_app_or in Hx. apply in_or_app. tauto.
+  Qed.
 
   Lemma len_pos' : len (pos s') = len (pos s).
   Proof. rewrite Hpos. apply len_map. Qed.
@@ -133,11 +144,11 @@ Section AffineFull.
       rewrite ?pool', ?len_pos', ?len_neg', ?(len_map_f a b); unfold easy_pos_ratio, easy_neg_ratio;
       rewrite ?hpr', ?hnr', ?hr', ?nb_all', ?Hep, ?Hen.
     1,2: destruct (len (pos s) =? 0)%Z eqn:Z0; [exact I|]; rewrite Hpos; apply tar_affine_full; try assumption;
-         apply Z.eqb_neq in Z0; pose proof (len_nonneg (pos s)); lia.
+         [apply Z.eqb_neq in Z0; pose proof (len_nonneg (pos s)); lia | exact comm_pos].
     1,2: destruct (len (neg s) =? 0)%Z eqn:Z0; [exact I|]; rewrite Hneg; apply tar_affine_full; try assumption;
-         apply Z.eqb_neq in Z0; pose proof (len_nonneg (neg s)); lia.
+         [apply Z.eqb_neq in Z0; pose proof (len_nonneg (neg s)); lia | exact comm_neg].
     1,2: destruct (len (isort (neg s ++ pos s)) =? 0)%Z eqn:Z0; [exact I|]; apply tar_affine_full; try assumption;
-         apply Z.eqb_neq in Z0; pose proof (len_nonneg (isort (neg s ++ pos s))); lia.
+         [apply Z.eqb_neq in Z0; pose proof (len_nonneg (isort (neg s ++ pos s))); lia | exact comm_pool].
   Qed.
 
   Lemma t_fpr_f x : (1 <= len (neg s))%Z -> t_fpr succ pred s' x == f (t_fpr succ pred s x).
@@ -166,7 +177,7 @@ Section AffineFull.
     apply orb_false_elim in Z0. destruct Z0 as [Zp Zn]. apply Z.eqb_neq in Zp, Zn.
     pose proof (len_nonneg (pos s)) as Lp. pose proof (len_nonneg (neg s)) as Ln.
     assert (Hp : (1 <= len (pos s))%Z) by lia. assert (Hn : (1 <= len (neg s))%Z) by lia.
-    cbv zeta. rewrite Hpos, Hneg. rewrite !(nthZ_map a b) by lia.
+    cbv zeta. rewrite Hpos, Hneg. rewrite !(EquivarianceFacts.nthZ_map a b) by lia.
     rewrite !Qltb_f.
     set (p0 := nthZ (pos s) 0). set (pl := nthZ (pos s) (len (pos s) - 1)).
     set (n0 := nthZ (neg s) 0). set (nl := nthZ (neg s) (len (neg s) - 1)).
@@ -210,31 +221,37 @@ Proof.
 Qed.
 
 Theorem threshold_at_affine_scores succ pred a b s mt u m : 0 < a -> wf s ->
-  (forall x, succ (a * x + b) == a * succ x + b) -> (forall x, pred (a * x + b) == a * pred x + b) ->
+  commutes_on succ pred a b (pos s ++ neg s) ->
   match threshold_at succ pred mt (affine_scores a b s) u m, threshold_at succ pred mt s u m with
   | Ret t', Ret t => t' == a * t + b
   | Raise, Raise => True
   | _, _ => False
   end.
 Proof.
-  intros Ha Hw Hs Hp. destruct (affine_scores_fields a b s Ha Hw) as [P N].
-  apply (threshold_at_affine_full succ pred a b Hs Hp s (affine_scores a b s) P N); try reflexivity; exact Ha.
+  intros Ha Hw Hc. destruct (affine_scores_fields a b s Ha Hw) as [P N].
+  apply (threshold_at_affine_full succ pred a b s (affine_scores a b s) P N); try reflexivity; assumption.
 Qed.
 
 Theorem eer_affine_scores succ pred a b fuel s : 0 < a -> wf s ->
-  (forall x, succ (a * x + b) == a * succ x + b) -> (forall x, pred (a * x + b) == a * pred x + b) ->
+  commutes_on succ pred a b (pos s ++ neg s) ->
   match eer succ pred fuel (affine_scores a b s), eer succ pred fuel s with
   | Ret (t', e'), Ret (t, e) => e' = e /\ t' == a * t + b
   | Raise, Raise => True
   | _, _ => False
   end.
 Proof.
-  intros Ha Hw Hs Hp. destruct (affine_scores_fields a b s Ha Hw) as [P N].
-  apply (eer_affine_full succ pred a b Hs Hp s (affine_scores a b s) P N); try reflexivity; exact Ha.
+  intros Ha Hw Hc. destruct (affine_scores_fields a b s Ha Hw) as [P N].
+  apply (eer_affine_full succ pred a b s (affine_scores a b s) P N); try reflexivity; assumption.
 Qed.
 
-(* the commutation hypotheses are satisfiable: on the integer carrier every translation commutes with succ / pred *)
-Lemma int_translation_commutes b :
-  (forall x, (fun x => x + 1) (1 * x + b) == 1 * (fun x => x + 1) x + b) /\
-  (forall x, (fun x => x - 1) (1 * x + b) == 1 * (fun x => x - 1) x + b).
-Proof. split; intro x; ring. Qed.
+(* the commutation hypothesis is decidable on a given object ... *)
+Definition commutes_onb (succ pred : Q -> Q) (a b : Q) (l : list Q) : bool :=
+  forallb (fun x => Qeqb (succ (a * x + b)) (a * succ x + b) && Qeqb (pred (a * x + b)) (a * pred x + b)) l.
+Lemma commutes_onb_ok succ pred a b l : commutes_onb succ pred a b l = true -> commutes_on succ pred a b l.
+Proof.
+  unfold commutes_onb, commutes_on. rewrite forallb_forall. intros H x Hx. specialize (H x Hx).
+  apply andb_prop in H. destruct H as [A B]. qb. split; assumption.
+Qed.
+(* ... and holds on the integer carrier for every translation *)
+Lemma int_translation_commutes b l : commutes_on (fun x => x + 1) (fun x => x - 1) 1 b l.
+Proof. intros x _. split; ring. Qed.
